@@ -410,6 +410,16 @@ def check_C06(ctx):
     ctx.exhaustive = ctx.tier != 'quick'
     spread_samples(ctx, cs, res)
 
+T_RULES = ['x eq 1', 'a eq 1', 'x in [1, 2] or y in [3, 99999999999999999999]', 'x in ["u", "v"] or y in [3, 99999999999999999999]',
+           'a eq 1 or b.c eq 2', 'a eq 1 and b.c eq 2', 'a eq "s" or b.c pr', 'x in [1.5, 1.0e999] or y in [2.5]',
+           'a gt null or a eq 1', 'not (a co 1) and b eq 2', 'a eq 1.0.0 or b in ["p","q"]', 'a.b.c eq 1 or a.b eq 2 or a eq 3',
+           'k eq 99999999999999999999 or x in [1]', 'x in [1] and k eq 99999999999999999999', 's sw "a" or t in ["a"] or u in [1]',
+           'x eq 01', 'x eq 1 AND y eq 2']
+T_OBJS = [obj({}), obj({'x': I(9)}), obj({'x': I(1)}), obj({'x': I(2)}), obj({'a': S('s')}), obj({'a': I(2)}), obj({'x': I(3), 'y': I(3)}), obj({'x': S('u')}), obj({'a': I(1)}), obj({'b': I(5)}),
+          obj({'b': {'c': I(2)}}), obj({'a': ('strpanic',), 'b': S('p')}), obj({'a': {'b': {'c': I(1)}}}), obj({'a': {'b': I(2)}}),
+          obj({'y': I(3), 'x': F(1.5)}), obj({'s': ('strpanic',), 't': S('a'), 'u': I(1)}), obj({'a': S('1.0.0'), 'b': S('Q')}),
+          obj({'k': I(1), 'x': I(1)}), obj({'a': I(3), 'b': I(2)})]
+
 def check_C16(ctx):
     cs = CaseSet()
     for (t, o) in CORPUS:
@@ -423,8 +433,35 @@ def check_C16(ctx):
                 for lit in ['1', '1.5', '"a"', 'true', 'null', '1.0.0', '[1]', '["a"]', '[1.5]']:
                     for op in ['eq', 'le', 'in', 'co']:
                         cs.eval('%s %s %s' % ('.'.join(path), op, lit), o, 'nested-dbg')
+    # the diagnostic belongs to the LATEST call: reused evaluators, an undecided call followed by a decided one and v.v.
+    hs = []
+    for text in T_RULES:
+        for o1 in T_OBJS:
+            for o2 in T_OBJS:
+                if ctx.rng.random() < ctx.n(0.3, 1.0):
+                    ops = [('p', o1), ('d',), ('p', o2), ('d',)] + ([('p', o1), ('d',)] if ctx.rng.random() < 0.3 else [])
+                    h = cs.hist(text, ops, 'reuse-dbg')
+                    hs.append((h, ops, [cs.eval(text, o[1], 'reuse-fresh') if o[0] == 'p' else None for o in ops]))
     res = ctx.run(cs)
-    ctx.compare(cs.cases, res, ['dbg'], scope=accepted)
+    ctx.compare([c for c in cs.cases if c.kind != 'hist'], res, ['dbg'], scope=accepted)
+    ctx.compare([c for c in cs.cases if c.kind == 'hist'], res, ['out'], nontrivial=lambda c, mo: True)
+    for h, ops, fresh in hs:
+        io = res.impl.get(h.id)
+        if not io or 'out' not in io or io['out'] == 'NEWERR':
+            continue
+        last = 'nil'
+        for k, (op, o, f) in enumerate(zip(ops, io['out'].split(';'), fresh)):
+            if op[0] == 'p':
+                fo = res.impl.get(f.id)
+                if not fo:
+                    break
+                last = o[1:].split(',')[2]
+                if (last != 'nil') != (fo['dbg'] != 'nil'):
+                    ctx.violation('call %d on a reused evaluator leaves diagnostic %s, the same call on a fresh evaluator leaves %s' % (k, last, fo['dbg']), [h, f])
+                    break
+            elif o[1:] != last:
+                ctx.violation('LastDebugErr at step %d is %s, the latest Process left %s' % (k, o[1:], last), [h])
+                break
     spec_violations(ctx, 'LastDebugErr')
     for c in cs.cases:
         io = res.impl.get(c.id)
@@ -577,6 +614,33 @@ def check_C01(ctx):
                 o = obj({names[i]: I(1) for i in range(k) if bits[i]})
                 c = cs.eval(text, o, 'bool-exh', q=q, bits=bits)
                 groups.append((c, q, None, sc, {id(lv[i]): bits[i] for i in range(k)}))
+    # every grouping of 4 and 5 leaves with every choice of connectives (parentheses only where the
+    # grouping needs them, plus a negated variant of each right-hand group) x every assignment
+    def bare(n):
+        if n == 1:
+            yield ('W', '', ('L',))
+            return
+        for i in range(1, n):
+            for l in bare(i):
+                for r in bare(n - i):
+                    for op in ('and', 'or'):
+                        yield ('W', '', ('B', op, l, r))
+    for k in (4, 5):
+        for si, shape in enumerate(bare(k)):
+            variants = [shape]
+            if shape[2][3][2][0] == 'B' and si % 3 == 0:
+                variants.append(('W', '', ('B', shape[2][1], shape[2][2], ('W', 'not', shape[2][3][2]))))
+            for sh in variants:
+                lv = [('pr', [names[i]]) for i in range(k)]
+                q = instantiate(sh, lv)
+                text = render(q)
+                sc = cs.syntax(text, 'group-exh-tree', q=q)
+                for bits in itertools.product([False, True], repeat=k):
+                    if k == 5 and ctx.quick and (si + sum(bits)) % 2:
+                        continue
+                    o = obj({names[i]: I(1) for i in range(k) if bits[i]})
+                    c = cs.eval(text, o, 'group-exh', q=q, bits=bits)
+                    groups.append((c, q, None, sc, {id(lv[i]): bits[i] for i in range(k)}))
     # chains without parentheses: left associativity at equal precedence
     for n in range(2, ctx.n(6, 9)):
         for _ in range(ctx.n(30, 300)):
@@ -968,15 +1032,6 @@ def check_C11(ctx):
     # targeted: every ordered pair / selected triples of calls from a per-rule object pool,
     # for rules mixing list literals (incl. out-of-range elements), nested paths and every
     # literal kind; the pools contain calls that err, calls that panic and clean calls
-    T_RULES = ['x eq 1', 'a eq 1', 'x in [1, 2] or y in [3, 99999999999999999999]', 'x in ["u", "v"] or y in [3, 99999999999999999999]',
-               'a eq 1 or b.c eq 2', 'a eq 1 and b.c eq 2', 'a eq "s" or b.c pr', 'x in [1.5, 1.0e999] or y in [2.5]',
-               'a gt null or a eq 1', 'not (a co 1) and b eq 2', 'a eq 1.0.0 or b in ["p","q"]', 'a.b.c eq 1 or a.b eq 2 or a eq 3',
-               'k eq 99999999999999999999 or x in [1]', 'x in [1] and k eq 99999999999999999999', 's sw "a" or t in ["a"] or u in [1]',
-               'x eq 01', 'x eq 1 AND y eq 2']
-    T_OBJS = [obj({}), obj({'x': I(9)}), obj({'x': I(1)}), obj({'x': I(2)}), obj({'a': S('s')}), obj({'a': I(2)}), obj({'x': I(3), 'y': I(3)}), obj({'x': S('u')}), obj({'a': I(1)}), obj({'b': I(5)}),
-              obj({'b': {'c': I(2)}}), obj({'a': ('strpanic',), 'b': S('p')}), obj({'a': {'b': {'c': I(1)}}}), obj({'a': {'b': I(2)}}),
-              obj({'y': I(3), 'x': F(1.5)}), obj({'s': ('strpanic',), 't': S('a'), 'u': I(1)}), obj({'a': S('1.0.0'), 'b': S('Q')}),
-              obj({'k': I(1), 'x': I(1)}), obj({'a': I(3), 'b': I(2)})]
     for text in T_RULES:
         for o1 in T_OBJS:
             for o2 in T_OBJS:
